@@ -279,38 +279,165 @@ func runDebond(c DCase) (res dResult) {
 	return res
 }
 
+// ledgerSim follows the escrow ledger with real SharePool calls; it is used by
+// the generators only (to draw reclaims that are mostly within the
+// delegator's shares), never as an oracle.
+type simEntry struct {
+	end uint64
+	d   int
+	sh  *quantity.Quantity
+}
+
+type ledgerSim struct {
+	act, deb staking.SharePool
+	sh       map[int]*quantity.Quantity
+	q        []simEntry
+	epoch    uint64
+}
+
+func newLedgerSim(epoch uint64) *ledgerSim {
+	return &ledgerSim{sh: map[int]*quantity.Quantity{}, epoch: epoch}
+}
+
+func (l *ledgerSim) shares(d int) *quantity.Quantity {
+	if l.sh[d] == nil {
+		l.sh[d] = quantity.NewQuantity()
+	}
+	return l.sh[d]
+}
+
+func (l *ledgerSim) add(d int, a *big.Int) {
+	if l.act.Balance.IsZero() && !l.act.TotalShares.IsZero() {
+		return
+	}
+	_, _ = l.act.Deposit(l.shares(d), qOf(a), qOf(a))
+}
+
+func (l *ledgerSim) reclaim(d int, s *big.Int, iv uint64) {
+	if s.Sign() == 0 || l.shares(d).ToBigInt().Cmp(s) < 0 {
+		return
+	}
+	if l.deb.Balance.IsZero() && !l.deb.TotalShares.IsZero() {
+		return
+	}
+	var paid, minted quantity.Quantity
+	if err := l.act.Withdraw(&paid, l.shares(d), qOf(s)); err != nil {
+		panic(err)
+	}
+	amt := paid.Clone()
+	if _, err := l.deb.Deposit(&minted, &paid, amt); err != nil {
+		panic(err)
+	}
+	end := l.epoch + iv
+	for k := range l.q {
+		if l.q[k].end == end && l.q[k].d == d {
+			_ = l.q[k].sh.Add(&minted)
+			return
+		}
+	}
+	l.q = append(l.q, simEntry{end, d, &minted})
+	sort.SliceStable(l.q, func(a, b int) bool {
+		if l.q[a].end != l.q[b].end {
+			return l.q[a].end < l.q[b].end
+		}
+		return l.q[a].d < l.q[b].d
+	})
+}
+
+func (l *ledgerSim) epochTo(e uint64) {
+	l.epoch = e
+	var keep []simEntry
+	for _, x := range l.q {
+		if x.end <= e {
+			var paid quantity.Quantity
+			_ = l.deb.Withdraw(&paid, x.sh, x.sh.Clone())
+		} else {
+			keep = append(keep, x)
+		}
+	}
+	l.q = keep
+}
+
+func (l *ledgerSim) reward(a *big.Int) { _ = l.act.Balance.Add(qOf(a)) }
+
+func (l *ledgerSim) slash(a *big.Int) {
+	ba, bd := l.act.Balance.ToBigInt(), l.deb.Balance.ToBigInt()
+	total := add(ba, bd)
+	if total.Sign() == 0 {
+		return
+	}
+	_, _ = l.act.Balance.SubUpTo(qOf(new(big.Int).Quo(mul(ba, a), total)))
+	_, _ = l.deb.Balance.SubUpTo(qOf(new(big.Int).Quo(mul(bd, a), total)))
+}
+
 func genDebond(r *prng.R) DCase {
 	c := DCase{Epoch: uint64(r.Intn(5))}
 	epoch := c.Epoch
+	sim := newLedgerSim(epoch)
 	n := r.Range(4, 40)
 	big1 := r.Chance(25)
-	amount := func() string {
+	amount := func() *big.Int {
 		if big1 && r.Chance(60) {
-			return pick(r).String()
+			return pick(r)
 		}
-		return fmt.Sprint(r.Intn(40))
+		return big.NewInt(int64(r.Intn(40)))
 	}
 	for i := 0; i < n; i++ {
 		x := r.Intn(100)
 		d := r.Range(1, 3)
 		switch {
 		case x < 30:
-			c.Dops = append(c.Dops, DOp{K: "add", D: d, A: amount()})
-		case x < 60:
 			a := amount()
-			if !big1 || r.Chance(50) {
-				a = fmt.Sprint(r.Intn(12))
+			c.Dops = append(c.Dops, DOp{K: "add", D: d, A: a.String()})
+			sim.add(d, a)
+		case x < 60:
+			// mostly within the delegator's shares; sometimes all, one too many, zero
+			have := sim.shares(d).ToBigInt()
+			if have.Sign() == 0 && r.Chance(70) {
+				for dd := 1; dd <= 3; dd++ {
+					if sim.shares(dd).ToBigInt().Sign() > 0 {
+						d = dd
+						have = sim.shares(dd).ToBigInt()
+					}
+				}
 			}
-			c.Dops = append(c.Dops, DOp{K: "reclaim", D: d, A: a, Iv: uint64(r.Intn(4))})
+			if have.Sign() == 0 && r.Chance(85) {
+				a := add(amount(), big.NewInt(1))
+				c.Dops = append(c.Dops, DOp{K: "add", D: d, A: a.String()})
+				sim.add(d, a)
+				continue
+			}
+			a := big.NewInt(0)
+			if have.Sign() > 0 {
+				a = add(new(big.Int).Mod(new(big.Int).SetBytes(r.Bytes(33)), have), big.NewInt(1))
+			}
+			switch r.Intn(14) {
+			case 0:
+				a = have
+			case 1:
+				a = add(have, big.NewInt(1))
+			case 2:
+				a = big.NewInt(0)
+			case 3:
+				a = amount()
+			}
+			iv := uint64(r.Intn(4))
+			c.Dops = append(c.Dops, DOp{K: "reclaim", D: d, A: a.String(), Iv: iv})
+			sim.reclaim(d, a, iv)
 		case x < 80:
 			if !r.Chance(8) {
 				epoch += uint64(r.Range(1, 2))
 			}
 			c.Dops = append(c.Dops, DOp{K: "epoch", E: epoch})
+			sim.epochTo(epoch)
 		case x < 90:
-			c.Dops = append(c.Dops, DOp{K: "rew", A: amount()})
+			a := amount()
+			c.Dops = append(c.Dops, DOp{K: "rew", A: a.String()})
+			sim.reward(a)
 		default:
-			c.Dops = append(c.Dops, DOp{K: "slash", A: amount()})
+			a := amount()
+			c.Dops = append(c.Dops, DOp{K: "slash", A: a.String()})
+			sim.slash(a)
 		}
 	}
 	return c
@@ -319,7 +446,7 @@ func genDebond(r *prng.R) DCase {
 func debondMode(seed uint64, n int, out string, replayed []DCase) {
 	hdr := "From Verif Require Import Lib.Base Ledger.SharePool Ledger.Debond.\n"
 	wb := coqout.NewWriter(out, hdr, "run_debond", "debond_eqb", 60)
-	sum := coqout.NewSummary("seeded histories (4..40 operations) of the real addEscrow / reclaimEscrow handlers (debonding interval 0..3 set per reclaim), onEpochChange (epochs advancing by 0..2), reward (balance credit) and SlashEscrow for 3 delegators of one escrow account on the mock application state; amounts 0..39 and, in a quarter of the histories, 2^64..2^256-scale; non-trivial = some reclaim moved a non-zero stake into the debonding pool; distinct = distinct case descriptions")
+	sum := coqout.NewSummary("seeded histories (4..40 operations) of the real addEscrow / reclaimEscrow handlers (debonding interval 0..3 set per reclaim), onEpochChange (epochs advancing by 0..2), reward (balance credit) and SlashEscrow for 3 delegators of one escrow account on the mock application state; amounts 0..39 and, in a quarter of the histories, 2^64..2^256-scale; reclaim amounts drawn from the delegator's current shares as followed by a generator-side ledger built on the real SharePool (about 80% succeed, 10% exceed the shares, 10% zero or dead pool); non-trivial = some reclaim moved a non-zero stake into the debonding pool; distinct = distinct case descriptions")
 	cases := replayed
 	if cases == nil {
 		cases = append(cases, DCase{Epoch: 5, Dops: []DOp{{K: "add", D: 1, A: "100"}, {K: "add", D: 2, A: "50"}, {K: "rew", A: "30"},
